@@ -15,9 +15,9 @@ vars == <<cfg, sc, s>>
 
 (* the base configurations (DNS name, system trust store) in full; the other addressing / trust-store combinations for the
    dialled connection only *)
-Base(c) == c.host = "name" /\ c.store = "system"
+Base(c) == c.host = "name" /\ c.store = "system" /\ c.via # "unix"
 XCfgs == {c \in [mode : XModes, verify : XVerify, connector : XConnectors, timeout : XTimeouts, via : XVias, host : XHosts, store : XStores] :
-            Base(c) \/ c.via = "dial"}
+            Base(c) \/ c.via = "dial" \/ (c.via = "unix" /\ c.host = "name" /\ c.store = "system")}
 XScripts(c) == {x \in Scripts :
                   /\ ScriptFor(c, x)
                   /\ x.resp \in XResps \cup {"na"} /\ x.inj \in XInjs /\ x.hs \in XHss
@@ -25,7 +25,8 @@ XScripts(c) == {x \in Scripts :
                   /\ (x.resp \in {"refuse", "garbage", "wrongid"} => x.hs \in XFaultHss)
                   /\ (x.resp \in {"close", "hangup", "stall"} => x.hs = "trusted")      \* never reached
                   (* off the base: the scripts in which a certificate is judged, and the honest refusal *)
-                  /\ (Base(c) \/ (x.hs \in Certs /\ x.inj = "none" /\ x.resp \in {"na", "success", "refuse"}))}
+                  /\ (Base(c) \/ (x.hs \in Certs /\ x.inj = "none" /\ x.resp \in {"na", "success", "refuse"}))
+                  /\ (c.via = "unix" => (x.hs = "trusted" /\ x.resp \in {"na", "success"}))}
 
 Alphabet ==
   {[e |-> "accept"], [e |-> "hello"]}
